@@ -471,6 +471,10 @@ func (s *locSys) step(op map[string]interface{}) map[string]interface{} {
 		for _, i := range ps {
 			out = append(out, i)
 		}
+		// ... and a caller may do what it likes with the slice it was handed
+		for i := range ps {
+			ps[i] = "verif-clobbered"
+		}
 		return okR(out)
 	case "setParents":
 		ps := []string{}
@@ -482,6 +486,10 @@ func (s *locSys) step(op map[string]interface{}) map[string]interface{} {
 			}
 		}
 		got, err := loc.SetParents(ctx, ps)
+		// the caller reuses its slice afterwards: what the location stored is its own
+		for i := range ps {
+			ps[i] = "verif-clobbered"
+		}
 		if err != nil {
 			return errR(err)
 		}
